@@ -7,7 +7,7 @@
   region (structural facts `publish`, `subscribe` – deferred unlocks – re-extracted on every run), so a thread that
   does not hold the topic mutex is either before or after that region; the holder carries the program counter:
 
-    free ─pLock ms→ pubLocked ms ─pPersist→ pubSending ms ─pSend→ … ─pSend→ pubSending [] ─pUnlock→ free
+    free ─pLock ms→ pubLocked ms (─pAbort→ free, when the Pub/Sub was closed meanwhile) ─pPersist→ pubSending ms ─pSend→ … ─pSend→ pubSending [] ─pUnlock→ free
     free ─uLock→ subLocked ─uReplay→ subReplayed (snapshot of the log) ─uRegister→ free
     free ─unsub k→ free                       (unsubscribe goroutine: remove under both locks)
 
@@ -34,6 +34,7 @@ def init : St := { log := [], regs := [], phase := .free }
 
 inductive Action
   | pLock (ms : List Nat) | pPersist | pSend | pUnlock
+  | pAbort                         -- the Pub/Sub was closed meanwhile (`persistedMessages == nil`): error, nothing persisted
   | uLock | uReplay | uRegister
   | unsub (k : Nat)
   deriving DecidableEq, Repr
@@ -44,6 +45,9 @@ def act (s : St) : Action → Option St
     | _ => none
   | .pPersist => match s.phase with
     | .pubLocked ms => some { s with log := s.log ++ ms, phase := .pubSending ms }
+    | _ => none
+  | .pAbort => match s.phase with
+    | .pubLocked _ => some { s with phase := .free }
     | _ => none
   | .pSend => match s.phase with
     -- `sendMessage`: snapshot of the registered subscribers, one sender goroutine each
